@@ -5,6 +5,7 @@ cd "$(dirname "$0")"
 export CARGO_NET_OFFLINE=true
 python3 tools/gen_constants.py || true
 python3 tools/rs2lean.py || true
+python3 tools/rs2lean_arith.py || true
 (cd lean && lake build Copia copia_model)
 mkdir -p .build
 [ -L .build/repo ] || ln -sfn /repo .build/repo
